@@ -104,7 +104,7 @@ Qed.
 
 Definition after_fs (st : lstate) (i : xid) (cf : cfs) : lstate :=
   mkL (l_sofas st) (l_stab st) (if zmem i (l_tab st) then l_tab st else l_tab st ++ [i]) (zaset i cf (l_fs st))
-      (Z.max i (l_max_id st)) (l_max_num st) (l_init st).
+      (Z.max i (l_max_id st)) (l_max_num st) (l_init st) (l_ahead st) (l_made st ++ [i]).
 
 Lemma load_fs_den L s st e stab r :
   den_fs L s stab e = Ok r ->
@@ -139,7 +139,7 @@ Definition after_sofa (st1 : lstate) (cs0 : csofa) : lstate :=
   mkL (upsert_sofa cs0 (l_sofas st1)) (zaset (cs_id cs0) (cs_text cs0) (l_stab st1))
       (if zmem (cs_id cs0) (l_tab st1) then l_tab st1 else l_tab st1 ++ [cs_id cs0]) (l_fs st1)
       (Z.max (cs_id cs0) (l_max_id st1)) (Z.max (cs_num cs0) (l_max_num st1))
-      (l_init st1 || String.eqb (cs_name cs0) "_InitialView").
+      (l_init st1 || String.eqb (cs_name cs0) "_InitialView") (l_ahead st1) (l_made st1).
 
 Lemma load_sofa_den L s dict es views st st1 e cs :
   den_sofa L views e = Ok cs ->
@@ -172,6 +172,12 @@ Proof.
   destruct (Z.eqb k k') eqn:E; cbn [map fst In].
   - apply Z.eqb_eq in E. subst k'. intuition.
   - rewrite IH. intuition.
+Qed.
+Lemma zaset_fresh_keys {V} k (v : V) l : ~ In k (map fst l) -> map fst (zaset k v l) = map fst l ++ [k].
+Proof.
+  induction l as [|[k' v'] r IH]; intros H; cbn [zaset map fst app]; [reflexivity|].
+  destruct (Z.eqb k k') eqn:E; [apply Z.eqb_eq in E; subst k'; exfalso; apply H; left; reflexivity|].
+  cbn [map fst]. rewrite IH; [reflexivity|]. intros Hin. apply H. right. exact Hin.
 Qed.
 Lemma zaset_In {V} k (v : V) l x w : In (x, w) (zaset k v l) -> (x = k /\ w = v) \/ In (x, w) l.
 Proof.
@@ -481,7 +487,7 @@ Lemma load_view_run st name vj l ms :
   load_view (Ok st) (name, vj) =
     Ok (mkL (map (add_members name ms) (l_sofas st)) (l_stab st) (l_tab st)
             (map (repoint (match find (fun x => String.eqb (cs_name x) name) (l_sofas st) with Some x => cs_id x | None => 0 end) ms) (l_fs st))
-            (l_max_id st) (l_max_num st) (l_init st)).
+            (l_max_id st) (l_max_num st) (l_init st) (l_ahead st) (l_made st)).
 Proof.
   intros H1 H2 H3 H4. unfold load_view. cbn [bind fst snd]. rewrite H1. cbn [bind]. rewrite H2, H3. cbn [bind].
   rewrite (fold_check (fun i => zmem i (l_tab st) && negb (existsb (fun x => Z.eqb (cs_id x) i) (l_sofas st))) ms H4). cbn [bind]. reflexivity.
@@ -565,7 +571,9 @@ Section Load.
       NoDup (map fst (l_fs st)) /\
       (forall i cf, In (i, cf) (l_fs st) -> exists e, In e F /\ den_fs L s stab e = Ok (i, cf)) /\
       is_max (l_max_id st) (l_tab st) /\ is_max (l_max_num st) (map cs_num sd) /\
-      l_init st = existsb (named "_InitialView") sd.
+      l_init st = existsb (named "_InitialView") sd /\
+      (* what was fetched ahead is what has been built so far; every object made is the one filed under its id *)
+      (forall i, In i (l_ahead st) <-> In i (map fst (l_fs st))) /\ l_made st = map fst (l_fs st).
 
   Lemma prefetch_step dict done st e cs : Inv1 done st -> In e S -> den_sofa L views e = Ok cs -> In cs sofas ->
     exists st1, prefetch_array L s dict es st (snd e) = Ok st1 /\ Inv1 done st1 /\ (forall r, cs_arr cs = Some r -> zmem r (l_tab st1) = true).
@@ -586,20 +594,24 @@ Section Load.
       rewrite (den_fs_array_stab L s stab (l_stab st) ea T_BYTE_ARRAY Hty Harrname) in Hden.
       destruct (load_fs_den L s st ea (l_stab st) (r, cf) Hden (fun k => eq_refl)) as [Hload _].
       { intros t0 ti Et _ Ha. rewrite Hty in Et. inversion Et; subst t0. rewrite Harrname in Ha. discriminate. }
-      rewrite Hr in Hload. cbn [snd] in Hload. exists (after_fs st r cf). split; [exact Hload|].
-      destruct HI as (sd & I1 & I2 & I3 & I4 & I5 & I6 & I7 & I8 & I9).
+      rewrite Hr in Hload. cbn [snd] in Hload. exists (note_ahead r (after_fs st r cf)). split; [rewrite Hload; reflexivity|].
+      destruct HI as (sd & I1 & I2 & I3 & I4 & I5 & I6 & I7 & I8 & I9 & I10 & I11).
       assert (Hfresh : ~ In r (map fst (l_fs st))).
       { intros H. assert (In r (l_tab st)) by (apply I4; right; exact H). apply zmem_In in H0. congruence. }
       split.
-      + exists sd. unfold after_fs. cbn [l_sofas l_stab l_tab l_fs l_max_id l_max_num l_init]. rewrite Etab.
+      + exists sd. unfold note_ahead, after_fs. cbn [l_sofas l_stab l_tab l_fs l_max_id l_max_num l_init l_ahead l_made]. rewrite Etab.
         split; [exact I1|]. split; [exact I2|]. split; [exact I3|]. split.
         { intros i. rewrite in_app_iff, zaset_keys, I4. cbn [In]. intuition. }
         split; [apply zaset_NoDup; exact I5|]. split.
         { intros i c Hic. apply zaset_In in Hic. destruct Hic as [[-> ->]|Hic]; [|exact (I6 i c Hic)].
           exists ea. split; [exact Hea|]. rewrite (den_fs_array_stab L s stab (l_stab st) ea T_BYTE_ARRAY Hty Harrname). exact Hden. }
-        split; [|split; assumption].
-        apply (is_max_add (l_max_id st) (l_tab st) r); [exact I7|]. intros y. rewrite in_app_iff. cbn [In]. intuition.
-      + intros r0 Hr'. rewrite Harr in Hr'. inversion Hr'; subst r0. unfold after_fs. cbn [l_tab]. rewrite Etab. apply zmem_In. apply in_or_app. right. left. reflexivity.
+        split; [|split; [exact I8|split; [exact I9|]]].
+        { apply (is_max_add (l_max_id st) (l_tab st) r); [exact I7|]. intros y. rewrite in_app_iff. cbn [In]. intuition. }
+        match goal with |- context [@map ?A ?B ?f (zaset r cf (l_fs st))] =>
+          replace (@map A B f (zaset r cf (l_fs st))) with (map fst (l_fs st) ++ [r]) by (symmetry; exact (zaset_fresh_keys r cf (l_fs st) Hfresh)) end.
+        split; [|rewrite I11; reflexivity].
+        intros i. rewrite !in_app_iff, I10. reflexivity.
+      + intros r0 Hr'. rewrite Harr in Hr'. inversion Hr'; subst r0. unfold note_ahead, after_fs. cbn [l_tab]. rewrite Etab. apply zmem_In. apply in_or_app. right. left. reflexivity.
   Qed.
 
   Lemma NoDup_S : NoDup (map fst S).
@@ -618,12 +630,12 @@ Section Load.
     destruct (prefetch_step dict done st e cs HI HeS Ecs Hcs) as (st1 & Hpre & HI1 & Harr).
     destruct (load_sofa_den L s dict es views st st1 e cs Ecs Hpre Harr) as [Hload Hid].
     exists (after_sofa st1 (set_members cs [])). split; [exact Hload|].
-    destruct HI1 as (sd & I1 & I2 & I3 & I4 & I5 & I6 & I7 & I8 & I9).
+    destruct HI1 as (sd & I1 & I2 & I3 & I4 & I5 & I6 & I7 & I8 & I9 & I10 & I11).
     assert (Hfresh : ~ In (fst e) (map fst done)).
     { pose proof NoDup_S as ND. rewrite Hsplit, map_app in ND. cbn [map] in ND. apply NoDup_remove_2 in ND. intros H. apply ND. apply in_or_app. left. exact H. }
     assert (Hkeys : map cs_id sd = map fst done) by exact (mapM_keys (den_sofa L views) fst cs_id done (den_sofa_id L views) sd I1).
     exists (sd ++ [cs]). unfold after_sofa, set_members.
-    cbn [l_sofas l_stab l_tab l_fs l_max_id l_max_num l_init cs_id cs_num cs_name cs_text cs_mime cs_uri cs_arr cs_members].
+    cbn [l_sofas l_stab l_tab l_fs l_max_id l_max_num l_init l_ahead l_made cs_id cs_num cs_name cs_text cs_mime cs_uri cs_arr cs_members].
     split. { rewrite mapM_app, I1. cbn [mapM bind]. rewrite Ecs. reflexivity. }
     split. { unfold U. rewrite fold_left_app. cbn [fold_left]. fold (U sd). rewrite <- I2. reflexivity. }
     split.
@@ -635,18 +647,19 @@ Section Load.
     { apply (is_max_add (l_max_id st1) (l_tab st1) (cs_id cs)); [exact I7|]. intros y. apply In_tab_add. }
     split.
     { apply (is_max_add (l_max_num st1) (map cs_num sd) (cs_num cs)); [exact I8|]. intros y. rewrite map_app, in_app_iff. cbn [map In]. intuition. }
-    rewrite I9, existsb_app. cbn [existsb]. rewrite orb_false_r. reflexivity.
+    split; [rewrite I9, existsb_app; cbn [existsb]; rewrite orb_false_r; reflexivity|]. split; [exact I10|exact I11].
   Qed.
 
-  Definition st0 : lstate := mkL [initial_sofa] [] [] [] 0 0 false.
+  Definition st0 : lstate := mkL [initial_sofa] [] [] [] 0 0 false [] [].
   Lemma pass1 dict : exists st1,
     fold_left (fun acc e => do a <- acc ;; if is_sofa_entry e then load_sofa L s dict es a e else Ok a) es (Ok st0) = Ok st1 /\ Inv1 S st1.
   Proof.
     rewrite (fold_filter is_sofa_entry (load_sofa L s dict es) es (Ok st0)).
     apply (rfold_inv (load_sofa L s dict es) Inv1 S S [] st0 eq_refl).
-    - exists []. cbn [mapM map l_sofas l_stab l_tab l_fs l_max_id l_max_num l_init st0 existsb]. unfold U. cbn [fold_left].
+    - exists []. cbn [mapM map l_sofas l_stab l_tab l_fs l_max_id l_max_num l_init l_ahead l_made st0 existsb]. unfold U. cbn [fold_left].
       split; [reflexivity|]. split; [reflexivity|]. split; [reflexivity|]. split; [intros i; split; [intros []|intros [[]|[]]]|].
-      split; [constructor|]. split; [intros i cf []|]. split; [exact is_max_nil|]. split; [exact is_max_nil|reflexivity].
+      split; [constructor|]. split; [intros i cf []|]. split; [exact is_max_nil|]. split; [exact is_max_nil|]. split; [reflexivity|].
+      split; [intros i; split; intros []|reflexivity].
     - intros done e rest st Hsplit HI. exact (sofa_step dict done e rest st Hsplit HI).
   Qed.
 
@@ -658,49 +671,102 @@ Section Load.
     Lemma stab_agree : forall k, zlookup k (l_stab st1) = zlookup k stab.
     Proof. destruct H1 as (sd & I1 & _ & I3 & _). rewrite Hsofas in I1. inversion I1; subst sd. exact I3. Qed.
 
+    (* the entries the second pass parses: not a sofa, not fetched ahead for a sofa (d94ad6a) *)
+    Definition todo (e : entry) : bool := negb (is_sofa_entry e || zmem (fst e) (l_ahead st1)).
+    Local Notation F2 := (filter todo es).
+    Lemma in_F2 e : In e F2 -> In e F /\ ~ In (fst e) (l_ahead st1).
+    Proof.
+      intros H. apply filter_In in H. destruct H as [He Ht]. unfold todo in Ht. apply negb_true_iff, orb_false_iff in Ht. destruct Ht as [Hs Ha].
+      split; [apply filter_In; split; [exact He|unfold not_sofa; rewrite Hs; reflexivity]|]. intros Hin. apply zmem_In in Hin. congruence.
+    Qed.
+    Lemma NoDup_F2 : NoDup (map fst F2).
+    Proof. destruct ok_parts as (ND & _). apply NoDup_filter_map. exact ND. Qed.
+
     Definition Inv2 (done : list entry) (st : lstate) : Prop :=
       l_sofas st = l_sofas st1 /\ l_stab st = l_stab st1 /\ l_max_num st = l_max_num st1 /\ l_init st = l_init st1 /\
       (forall i, In i (l_tab st) <-> In i (map fst S) \/ In i (map fst (l_fs st))) /\
       NoDup (map fst (l_fs st)) /\
       (forall i cf, In (i, cf) (l_fs st) -> exists e, In e F /\ den_fs L s stab e = Ok (i, cf)) /\
       (forall e, In e done -> In (fst e) (map fst (l_fs st))) /\
-      is_max (l_max_id st) (l_tab st).
+      is_max (l_max_id st) (l_tab st) /\
+      l_ahead st = l_ahead st1 /\ l_made st = map fst (l_fs st) /\
+      (forall i, In i (map fst (l_fs st)) <-> In i (l_ahead st1) \/ In i (map fst done)).
 
-    Lemma fs_step done e rest st : F = done ++ e :: rest -> Inv2 done st ->
+    Lemma fs_step done e rest st : F2 = done ++ e :: rest -> Inv2 done st ->
       exists st', load_fs L s st e = Ok st' /\ Inv2 (done ++ [e]) st'.
     Proof.
-      intros Hsplit (J1 & J2 & J3 & J4 & J5 & J6 & J7 & J8 & J9).
-      assert (HeF : In e F) by (rewrite Hsplit; apply in_or_app; right; left; reflexivity).
+      intros Hsplit (J1 & J2 & J3 & J4 & J5 & J6 & J7 & J8 & J9 & J10 & J11 & J12).
+      assert (HeF2 : In e F2) by (rewrite Hsplit; apply in_or_app; right; left; reflexivity).
+      destruct (in_F2 e HeF2) as [HeF Hnota].
       destruct (F_den e HeF) as (cf & Hden & _).
       destruct (load_fs_den L s st e stab (fst e, cf) Hden) as [Hload _].
       { intros k. rewrite J2. apply stab_agree. }
       { intros t0 ti Et Eti Ea. destruct ok_parts as (_ & _ & _ & _ & _ & _ & _ & Hentry). specialize (Hentry e HeF).
         unfold entry_ok in Hentry. rewrite Et, Eti, Ea in Hentry. rewrite !andb_true_iff in Hentry. destruct Hentry as (_ & (Hm & _) & _).
         exact (attrs_known_ok s ti _ _ _ Hm). }
+      (* no object has been made under this id yet *)
+      assert (Hfresh : ~ In (fst e) (map fst (l_fs st))).
+      { intros Hin. apply J12 in Hin. destruct Hin as [Hin|Hin]; [exact (Hnota Hin)|].
+        pose proof NoDup_F2 as ND. rewrite Hsplit, map_app in ND. cbn [map] in ND. apply NoDup_remove_2 in ND. apply ND. apply in_or_app. left. exact Hin. }
       cbn [snd] in Hload. exists (after_fs st (fst e) cf). split; [exact Hload|]. unfold Inv2, after_fs.
-      cbn [l_sofas l_stab l_tab l_fs l_max_id l_max_num l_init].
+      cbn [l_sofas l_stab l_tab l_fs l_max_id l_max_num l_init l_ahead l_made].
       split; [exact J1|]. split; [exact J2|]. split; [exact J3|]. split; [exact J4|]. split.
       { intros i. rewrite In_tab_add, zaset_keys, J5. intuition. }
       split; [apply zaset_NoDup; exact J6|]. split.
       { intros i c Hic. apply zaset_In in Hic. destruct Hic as [[-> ->]|Hic]; [exists e; split; assumption|exact (J7 i c Hic)]. }
       split.
       { intros e' He'. apply zaset_keys. apply in_app_or in He'. destruct He' as [He'|[<-|[]]]; [right; exact (J8 e' He')|left; reflexivity]. }
-      apply (is_max_add (l_max_id st) (l_tab st) (fst e)); [exact J9|]. intros y. apply In_tab_add.
+      split; [apply (is_max_add (l_max_id st) (l_tab st) (fst e)); [exact J9|]; intros y; apply In_tab_add|].
+      split; [exact J10|].
+      match goal with |- context [@map ?A ?B ?f (zaset (fst e) cf (l_fs st))] =>
+        replace (@map A B f (zaset (fst e) cf (l_fs st))) with (map fst (l_fs st) ++ [fst e]) by (symmetry; exact (zaset_fresh_keys (fst e) cf (l_fs st) Hfresh)) end.
+      split; [rewrite J11; reflexivity|].
+      intros i. rewrite map_app, !in_app_iff, J12. cbn [map In]. intuition.
     Qed.
 
-    Lemma pass2 : exists st2,
-      fold_left (fun acc e => do a <- acc ;; if is_sofa_entry e then Ok a else load_fs L s a e) es (Ok st1) = Ok st2 /\ Inv2 F st2.
+    Lemma load_fs_ahead st e st' : load_fs L s st e = Ok st' -> l_ahead st' = l_ahead st.
     Proof.
-      assert (Hfold : forall l (st : res lstate),
-                fold_left (fun acc e => do a <- acc ;; if is_sofa_entry e then Ok a else load_fs L s a e) l st
-                = fold_left (fun acc e => do a <- acc ;; if not_sofa e then load_fs L s a e else Ok a) l st).
-      { induction l as [|x r IH]; intros st; [reflexivity|]. cbn [fold_left]. rewrite IH. f_equal. unfold not_sofa. destruct (is_sofa_entry x); reflexivity. }
-      rewrite Hfold, (fold_filter not_sofa (load_fs L s) es (Ok st1)).
-      apply (rfold_inv (load_fs L s) Inv2 F F [] st1 eq_refl).
-      - destruct H1 as (sd & I1 & I2 & I3 & I4 & I5 & I6 & I7 & I8 & I9). unfold Inv2.
+      unfold load_fs. destruct (e_type e); [|discriminate]. destruct (sch_find s (norm_tname s0)); [|discriminate].
+      intros H. apply bind_Ok in H as (cf & _ & H). inversion H. reflexivity.
+    Qed.
+    (* the set consulted by the second pass does not change during the pass *)
+    Lemma second_pass_todo : forall l (acc : res lstate), (forall a, acc = Ok a -> l_ahead a = l_ahead st1) ->
+      fold_left (fun acc e => do a <- acc ;; if is_sofa_entry e || zmem (fst e) (l_ahead a) then Ok a else load_fs L s a e) l acc
+      = fold_left (fun acc e => do a <- acc ;; if todo e then load_fs L s a e else Ok a) l acc.
+    Proof.
+      induction l as [|x r IH]; intros acc Hacc; [reflexivity|]. cbn [fold_left].
+      assert (E : (do a <- acc ;; if is_sofa_entry x || zmem (fst x) (l_ahead a) then Ok a else load_fs L s a x)
+                  = (do a <- acc ;; if todo x then load_fs L s a x else Ok a)).
+      { destruct acc as [a| |]; cbn [bind]; try reflexivity. unfold todo. rewrite (Hacc a eq_refl).
+        destruct (is_sofa_entry x || zmem (fst x) (l_ahead st1)); reflexivity. }
+      rewrite E. apply IH. intros a' Ha'. destruct acc as [a| |]; cbn [bind] in Ha'; try discriminate.
+      destruct (todo x); [rewrite (load_fs_ahead a x a' Ha'); exact (Hacc a eq_refl)|inversion Ha'; subst a'; exact (Hacc a eq_refl)].
+    Qed.
+
+    Lemma pass2 : exists st2, second_pass L s es st1 = Ok st2 /\ Inv2 F st2.
+    Proof.
+      unfold second_pass. rewrite (second_pass_todo es (Ok st1)) by (intros a [= <-]; reflexivity).
+      rewrite (fold_filter todo (load_fs L s) es (Ok st1)).
+      destruct (rfold_inv (load_fs L s) Inv2 F2 F2 [] st1 eq_refl) as (st2 & E2 & HI2).
+      - destruct H1 as (sd & I1 & I2 & I3 & I4 & I5 & I6 & I7 & I8 & I9 & I10 & I11). unfold Inv2.
         split; [reflexivity|]. split; [reflexivity|]. split; [reflexivity|]. split; [reflexivity|]. split; [exact I4|].
-        split; [exact I5|]. split; [exact I6|]. split; [intros e []|exact I7].
+        split; [exact I5|]. split; [exact I6|]. split; [intros e []|]. split; [exact I7|]. split; [reflexivity|]. split; [exact I11|].
+        intros i. rewrite I10. cbn [map In]. intuition.
       - intros done e rest st Hsplit HI. exact (fs_step done e rest st Hsplit HI).
+      - exists st2. split; [exact E2|]. destruct HI2 as (J1 & J2 & J3 & J4 & J5 & J6 & J7 & J8 & J9 & J10 & J11 & J12).
+        unfold Inv2. repeat (split; [assumption|]). split.
+        { (* what was fetched ahead is there as well *)
+          intros e He. destruct (todo e) eqn:Et.
+          - apply J8. apply filter_In. split; [exact (proj1 (in_F e He))|exact Et].
+          - apply (proj2 (J12 (fst e))). left. unfold todo in Et. apply negb_false_iff, orb_true_iff in Et. destruct Et as [Et|Et]; [|apply zmem_In; exact Et].
+            rewrite (proj2 (in_F e He)) in Et. discriminate. }
+        split; [exact J9|]. split; [exact J10|]. split; [exact J11|].
+        intros i. rewrite J12. split.
+        + intros [H|H]; [left; exact H|right]. apply in_map_iff in H. destruct H as (e & <- & He). apply in_map. exact (proj1 (in_F2 e He)).
+        + intros [H|H]; [left; exact H|]. apply in_map_iff in H. destruct H as (e & <- & He). destruct (todo e) eqn:Et.
+          * right. apply in_map. apply filter_In. split; [exact (proj1 (in_F e He))|exact Et].
+          * left. unfold todo in Et. apply negb_false_iff, orb_true_iff in Et. destruct Et as [Et|Et]; [|apply zmem_In; exact Et].
+            rewrite (proj2 (in_F e He)) in Et. discriminate.
     Qed.
 
     (* ---- after pass 2: the table holds every id, the structures built are what the entries denote ---- *)
@@ -764,7 +830,7 @@ Section Load.
           match alookup (cs_name x) vdone with Some vj => set_members x (members_of vj) | None => x end.
         Definition InvV (vdone : list (string * json)) (st : lstate) : Prop :=
           l_sofas st = map (G vdone) (l_sofas st4) /\ l_stab st = l_stab st4 /\ l_tab st = l_tab st4 /\ l_fs st = l_fs st4 /\
-          l_max_id st = l_max_id st4 /\ l_max_num st = l_max_num st4 /\ l_init st = l_init st4.
+          l_max_id st = l_max_id st4 /\ l_max_num st = l_max_num st4 /\ l_init st = l_init st4 /\ l_made st = l_made st4.
 
         Lemma G_name vdone x : cs_name (G vdone x) = cs_name x.
         Proof. unfold G. destruct (alookup (cs_name x) vdone); reflexivity. Qed.
@@ -808,7 +874,7 @@ Section Load.
         Lemma view_step vdone kv rest st : views = vdone ++ kv :: rest -> InvV vdone st ->
           exists st', load_view (Ok st) kv = Ok st' /\ InvV (vdone ++ [kv]) st'.
         Proof.
-          intros Hsplit (W1 & W2 & W3 & W4 & W5 & W6 & W7). destruct V5 as [V5a V5b].
+          intros Hsplit (W1 & W2 & W3 & W4 & W5 & W6 & W7 & W8). destruct V5 as [V5a V5b].
           assert (Hkv : In kv views) by (rewrite Hsplit; apply in_or_app; right; left; reflexivity).
           destruct ok_parts as (ND & _ & NDv & NDn & _ & _ & Hviewok & _). specialize (Hviewok kv Hkv). unfold view_ok in Hviewok.
           destruct kv as [name vj]. cbn [fst snd] in *.
@@ -825,8 +891,8 @@ Section Load.
           assert (NDst : NoDup (map cs_name (l_sofas st))).
           { rewrite W1, map_map. erewrite map_ext; [exact V1|]. intros a. apply G_name. }
           rewrite (load_view_run st name vj l (jints l)).
-          - eexists. split; [reflexivity|]. unfold InvV. cbn [l_sofas l_stab l_tab l_fs l_max_id l_max_num l_init].
-            split; [|split; [exact W2|split; [exact W3|split; [|split; [exact W5|split; [exact W6|exact W7]]]]]].
+          - eexists. split; [reflexivity|]. unfold InvV. cbn [l_sofas l_stab l_tab l_fs l_max_id l_max_num l_init l_made].
+            split; [|split; [exact W2|split; [exact W3|split; [|split; [exact W5|split; [exact W6|split; [exact W7|exact W8]]]]]]].
             + (* the sofas: this view's members go to its sofa *)
               rewrite W1, map_map. apply map_ext_in. intros x0 Hx0in. unfold add_members. rewrite G_name.
               destruct (String.eqb (cs_name x0) name) eqn:En.
@@ -920,20 +986,22 @@ Definition fix_initial (st3 : lstate) (x : csofa) : csofa :=
   else x.
 Definition mk_st4 (st2 : lstate) : lstate :=
   let tab := l_tab st2 in
-  let st3 := mkL (l_sofas st2) (l_stab st2) tab (map (fun p => (fst p, resolve_fs tab (snd p))) (l_fs st2)) (l_max_id st2) (l_max_num st2) (l_init st2) in
+  let st3 := mkL (l_sofas st2) (l_stab st2) tab (map (fun p => (fst p, resolve_fs tab (snd p))) (l_fs st2)) (l_max_id st2) (l_max_num st2) (l_init st2)
+                 (l_ahead st2) (l_made st2) in
   if l_init st3 then st3
-  else mkL (map (fix_initial st3) (l_sofas st3)) (l_stab st3) (l_tab st3) (l_fs st3) (l_max_id st3 + 1) (l_max_num st3 + 1) true.
+  else mkL (map (fix_initial st3) (l_sofas st3)) (l_stab st3) (l_tab st3) (l_fs st3) (l_max_id st3 + 1) (l_max_num st3 + 1) true (l_ahead st3) (l_made st3).
 Definition finish (st5 : lstate) : ccas :=
   mkCcas (sort_by cs_id (map fin (l_sofas st5))) (sort_by fst (l_fs st5)).
 
-Lemma load_json_unfold L s d :
-  load_json L s d =
+Lemma load_json_st_unfold L s d :
+  load_json_st L s d =
   do es <- fs_entries d ;;
   do st1 <- fold_left (fun acc e => do a <- acc ;; if is_sofa_entry e then load_sofa L s (is_dict_form d) es a e else Ok a) es (Ok st0) ;;
-  do st2 <- fold_left (fun acc e => do a <- acc ;; if is_sofa_entry e then Ok a else load_fs L s a e) es (Ok st1) ;;
+  do st2 <- second_pass L s es st1 ;;
   do views <- doc_views d ;;
-  do st5 <- fold_left load_view views (Ok (mk_st4 st2)) ;;
-  Ok (finish st5).
+  fold_left load_view views (Ok (mk_st4 st2)).
+Proof. reflexivity. Qed.
+Lemma content_of_finish st5 : content_of st5 = finish st5.
 Proof. reflexivity. Qed.
 
 Lemma existsb_perm {A} (p : A -> bool) l l' : Permutation l l' -> existsb p l = existsb p l'.
@@ -973,11 +1041,15 @@ Section Final.
       exact (fin_G_cs0 L s d es views sofas Hes Hvs Hsofas Hok cs Hcs).
   Qed.
 
-  Lemma load_json_denotes : load_json L s d = Ok (with_initial_view (mkCcas (sort_by cs_id sofas) (sort_by fst fss))).
+  (* the state the reader ends in: its content is what the document denotes; one object was made per entry that is not a
+     sofa (NoDup: none twice) *)
+  Lemma load_json_st_denotes : exists st5, load_json_st L s d = Ok st5 /\
+    finish st5 = with_initial_view (mkCcas (sort_by cs_id sofas) (sort_by fst fss)) /\
+    NoDup (l_made st5) /\ Permutation (l_made st5) (map fst F).
   Proof.
     destruct (pass1 L s d es views sofas fss Hes Hvs Hsofas Hfss Hok (is_dict_form d)) as (st1 & E1 & HI1).
     destruct (pass2 L s d es views sofas fss Hes Hvs Hsofas Hfss Hok st1 HI1) as (st2 & E2 & HI2).
-    rewrite load_json_unfold, Hes. cbn [bind]. rewrite E1. cbn [bind]. rewrite E2. cbn [bind]. rewrite Hvs. cbn [bind].
+    rewrite load_json_st_unfold, Hes. cbn [bind]. rewrite E1. cbn [bind]. rewrite E2. cbn [bind]. rewrite Hvs. cbn [bind].
     pose proof (resolve_all L s d es views sofas Hes Hvs Hsofas Hok st1 st2 HI2) as Hres.
     pose proof (tab_all L s es sofas st1 st2 HI2) as Htab.
     pose proof (fs_perm L s d es views sofas fss Hes Hvs Hsofas Hfss Hok st1 st2 HI2) as Hfp.
@@ -985,8 +1057,11 @@ Section Final.
     destruct (ok_parts L s d es views sofas Hes Hvs Hsofas Hok) as (ND & Hpos & NDv & NDn & Harrays & Hsv & Hvo & Hentry).
     pose proof (sofa_ids L es views sofas Hsofas) as Hsids.
     pose proof (NoDup_S L s d es views sofas Hes Hvs Hsofas Hok) as NDS.
-    destruct HI1 as (sd & I1 & I2 & _ & _ & _ & _ & _ & I8 & I9). rewrite Hsofas in I1. inversion I1; subst sd. clear I1.
-    pose proof HI2 as (J1 & J2 & J3 & J4 & J5 & J6 & J7 & J8 & J9).
+    destruct HI1 as (sd & I1 & I2 & _ & _ & _ & _ & _ & I8 & I9 & _). rewrite Hsofas in I1. inversion I1; subst sd. clear I1.
+    pose proof HI2 as (J1 & J2 & J3 & J4 & J5 & J6 & J7 & J8 & J9 & J10 & J11 & J12).
+    assert (Hmade : NoDup (l_made st2) /\ Permutation (l_made st2) (map fst F)).
+    { rewrite J11. split; [exact J6|]. apply NoDup_Permutation; [exact J6|exact (NoDup_F L s d es views sofas Hes Hvs Hsofas Hok)|].
+      intros i. exact (fs_keys L s es sofas st1 st2 HI2 i). }
     assert (Hsof2 : l_sofas st2 = U sofas) by (rewrite J1; exact I2).
     assert (Hinit2 : l_init st2 = doc_init sofas) by (rewrite J4; exact I9).
     assert (Hnum2 : is_max (l_max_num st2) (map cs_num sofas)) by (rewrite J3; exact I8).
@@ -997,10 +1072,10 @@ Section Final.
     assert (NDfs : NoDup (map fst (l_fs st2))) by exact J6.
     assert (Hfsort : sort_by fst (l_fs st2) = sort_by fst fss) by (apply sort_by_perm_eq; assumption).
     (* the state before the %VIEWS pass *)
-    unfold mk_st4. cbv zeta. cbn [l_init l_sofas l_stab l_tab l_fs l_max_id l_max_num]. rewrite Hres.
+    unfold mk_st4. cbv zeta. cbn [l_init l_sofas l_stab l_tab l_fs l_max_id l_max_num l_ahead l_made]. rewrite Hres.
     destruct (l_init st2) eqn:Einit.
     - (* the document mentions _InitialView *)
-      set (st4 := mkL (l_sofas st2) (l_stab st2) (l_tab st2) (l_fs st2) (l_max_id st2) (l_max_num st2) true).
+      set (st4 := mkL (l_sofas st2) (l_stab st2) (l_tab st2) (l_fs st2) (l_max_id st2) (l_max_num st2) true (l_ahead st2) (l_made st2)).
       symmetry in Hinit2. rewrite Hinit2 in HU. cbn [app] in HU.
       destruct (views_pass L s d es views sofas Hes Hvs Hsofas Hok st1 st2 HI2 st4) as (st5 & E5 & HV).
       + cbn [st4 l_sofas]. rewrite Hsof2. exact NDU.
@@ -1009,13 +1084,14 @@ Section Final.
       + cbn [st4 l_sofas]. rewrite Hsof2. intros x i Hx Hi. apply (Permutation_in _ HU) in Hx. apply in_map_iff in Hx. destruct Hx as (cs & <- & Hcs).
         exact (Hapart cs i Hcs Hi).
       + split; reflexivity.
-      + rewrite E5. cbn [bind]. destruct HV as (W1 & _ & _ & W4 & _). unfold finish. rewrite W1, W4. cbn [st4 l_sofas l_fs]. rewrite Hsof2.
+      + exists st5. split; [exact E5|]. destruct HV as (W1 & _ & _ & W4 & _ & _ & _ & W8). split; [|rewrite W8; exact Hmade].
+        unfold finish. rewrite W1, W4. cbn [st4 l_sofas l_fs]. rewrite Hsof2.
         rewrite (final_sofas (U sofas) []); [|exact HU|intros x []|rewrite app_nil_r, Hsids; exact NDS]. rewrite app_nil_r, Hfsort.
         unfold with_initial_view. cbn [cc_sofas cc_fs].
         rewrite (existsb_perm _ _ _ (sort_by_is_perm cs_id sofas)). unfold doc_init, named in Hinit2. rewrite Hinit2. reflexivity.
     - (* it does not: the initial view keeps an empty sofa under the next id / sofaNum *)
-      set (st3 := mkL (l_sofas st2) (l_stab st2) (l_tab st2) (l_fs st2) (l_max_id st2) (l_max_num st2) false).
-      set (st4 := mkL (map (fix_initial st3) (l_sofas st2)) (l_stab st2) (l_tab st2) (l_fs st2) (l_max_id st2 + 1) (l_max_num st2 + 1) true).
+      set (st3 := mkL (l_sofas st2) (l_stab st2) (l_tab st2) (l_fs st2) (l_max_id st2) (l_max_num st2) false (l_ahead st2) (l_made st2)).
+      set (st4 := mkL (map (fix_initial st3) (l_sofas st2)) (l_stab st2) (l_tab st2) (l_fs st2) (l_max_id st2 + 1) (l_max_num st2 + 1) true (l_ahead st2) (l_made st2)).
       symmetry in Hinit2. rewrite Hinit2 in HU.
       set (init' := mkCsofa (l_max_id st2 + 1) (l_max_num st2 + 1) "_InitialView" None None None None []).
       assert (Hnoinit : forall cs, In cs sofas -> String.eqb (cs_name cs) "_InitialView" = false).
@@ -1036,7 +1112,8 @@ Section Final.
         * cbn [init' cs_id]. assert (i <= l_max_id st2) by (apply Hmaxid; apply Htab; right; exact Hi). lia.
         * apply in_map_iff in Hx. destruct Hx as (cs & <- & Hcs). exact (Hapart cs i Hcs Hi).
       + split; reflexivity.
-      + rewrite E5. cbn [bind]. destruct HV as (W1 & _ & _ & W4 & _). unfold finish. rewrite W1, W4. cbn [st4 l_sofas l_fs]. rewrite Hsof2.
+      + exists st5. split; [exact E5|]. destruct HV as (W1 & _ & _ & W4 & _ & _ & _ & W8). split; [|rewrite W8; exact Hmade].
+        unfold finish. rewrite W1, W4. cbn [st4 l_sofas l_fs]. rewrite Hsof2.
         (* the new sofa is the one with_initial_view adds *)
         assert (Hid : l_max_id st2 = zmax_list (map cs_id (sort_by cs_id sofas) ++ map fst (sort_by fst fss))).
         { apply (is_max_unique _ _ (l_tab st2)); [exact J9|]. eapply is_max_ext; [apply zmax_list_is_max|]. intros y.
@@ -1061,12 +1138,21 @@ Section Final.
         rewrite (final_sofas (map (fix_initial st3) (U sofas)) [init']); [|exact HU4| |exact NDall].
         * rewrite Hfsort. unfold with_initial_view. cbn [cc_sofas cc_fs].
           rewrite (existsb_perm _ _ _ (sort_by_is_perm cs_id sofas)). unfold doc_init, named in Hinit2. rewrite Hinit2.
-          f_equal. f_equal.
+          f_equal.
           match goal with |- _ = sort_by cs_id (_ ++ [?new]) => assert (Hnew : new = init') end.
           { unfold init'. f_equal; [f_equal; symmetry; exact Hid|f_equal; symmetry; exact Hnum]. }
           rewrite Hnew.
           apply sort_by_perm_eq; [apply Permutation_app_tail, Permutation_sym, sort_by_is_perm|exact NDall].
         * intros x [<-|[]]. unfold G, fin, set_members. cbn [init' cs_name]. rewrite Hviewnone. reflexivity.
+  Qed.
+
+  Lemma load_json_denotes : load_json L s d = Ok (with_initial_view (mkCcas (sort_by cs_id sofas) (sort_by fst fss))).
+  Proof.
+    destruct load_json_st_denotes as (st5 & E & Hf & _). unfold load_json. rewrite E. cbn [bind]. rewrite content_of_finish, Hf. reflexivity.
+  Qed.
+  Lemma load_made_denotes : exists l, load_made L s d = Ok l /\ NoDup l /\ Permutation l (map fst F).
+  Proof.
+    destruct load_json_st_denotes as (st5 & E & _ & Hm). exists (l_made st5). unfold load_made. rewrite E. split; [reflexivity|exact Hm].
   Qed.
 End Final.
 
@@ -1080,6 +1166,21 @@ Proof.
   apply bind_Ok in Hden as (es & Hes & Hden). apply bind_Ok in Hden as (views & Hvs & Hden).
   apply bind_Ok in Hden as (sofas & Hsofas & Hden). apply bind_Ok in Hden as (fss & Hfss & Hden). inversion Hden; subst cc.
   exact (load_json_denotes L s d es views sofas fss Hes Hvs Hsofas Hfss Hok).
+Qed.
+
+(* C02/C05 (d94ad6a): on a well-formed document the reader makes exactly one object per entry that is not a sofa -- also
+   for the byte array it parses ahead of its turn because a sofa refers to it.  Every holder of a reference (a feature, an
+   FSArray element, a view member, the sofaArray of one or several sofas) got its object out of the id-keyed dict, so all
+   holders of one id hold the same object: what the document shares is shared in the CAS. *)
+Theorem load_json_one_object_per_entry L s d cc es :
+  doc_ok_json L s d = true -> denote_json L s d = Ok cc -> fs_entries d = Ok es ->
+  exists made, load_made L s d = Ok made /\ NoDup made /\ Permutation made (map fst (filter not_sofa es)).
+Proof.
+  intros Hok Hden Hes0. unfold denote_json in Hden.
+  apply bind_Ok in Hden as (es' & Hes & Hden). apply bind_Ok in Hden as (views & Hvs & Hden).
+  apply bind_Ok in Hden as (sofas & Hsofas & Hden). apply bind_Ok in Hden as (fss & Hfss & Hden).
+  rewrite Hes0 in Hes. inversion Hes; subst es'.
+  exact (load_made_denotes L s d es views sofas fss Hes0 Hvs Hsofas Hfss Hok).
 Qed.
 
 (* ================================================================================================================ *)
